@@ -69,8 +69,19 @@ def gen_cases(rng, tier):
             for r in rxns:
                 r['basis'] = rxns[0]['basis']
             ops = []
-            for _ in range(rng.randint(2, 6)):
-                ops.append([rng.choice(['item_set', 'set_set']), rng.randrange(nr), float(rng.choice(XS))])
+            for _ in range(rng.randint(2, 7)):
+                o = rng.choice(['item_set', 'set_elem', 'set_all', 'set_all', 'sub_all', 'sub_elem'])
+                lo = rng.randrange(nr); ln = rng.randint(1, nr - lo)
+                if o in ('item_set', 'set_elem'):
+                    ops.append([o, rng.randrange(nr), float(rng.choice(XS))])
+                elif o == 'set_all':
+                    m = rng.choice([nr, nr, 1, 0, nr + 1])    # 0 = python scalar; wrong lengths must be rejected
+                    ops.append([o, float(rng.choice(XS)) if m == 0 else [float(rng.choice(XS)) for _ in range(m)]])
+                elif o == 'sub_all':
+                    m = rng.choice([ln, ln, 1, 0])
+                    ops.append([o, lo, ln, float(rng.choice(XS)) if m == 0 else [float(rng.choice(XS)) for _ in range(m)]])
+                else:
+                    ops.append([o, lo, ln, rng.randrange(ln), float(rng.choice(XS))])
         else:
             ops = []
             for _ in range(rng.randint(3, 10)):
@@ -182,6 +193,38 @@ def resolved_only(store, op):
         return [name, i, None if op[2] is None else resolve_reactant(store[i], op[2]), op[3]]
     return [name, i] + list(op[2:])
 
+def set_handles(tmo, objs):
+    """the set, one item per reaction and every slice sub-set, all obtained BEFORE any write"""
+    pr = tmo.ParallelReaction(objs)
+    n = len(objs)
+    handles, desc = [pr], [['set']]
+    for k in range(n):
+        handles.append(pr[k]); desc.append(['item', k])
+    for lo in range(n):
+        for ln in range(1, n - lo + 1):
+            handles.append(pr[lo:lo + ln]); desc.append(['sub', lo, ln])
+    return pr, handles, desc
+
+def set_apply(pr, handles, op):
+    name = op[0]
+    if name == 'item_set':
+        handles[1 + op[1]].X = op[2]
+    elif name == 'set_elem':
+        pr.X[op[1]] = op[2]
+    elif name == 'set_all':
+        pr.X = op[1]
+    elif name == 'sub_all':
+        pr[op[1]:op[1] + op[2]].X = op[3]
+    elif name == 'sub_elem':
+        pr[op[1]:op[1] + op[2]].X[op[3]] = op[4]
+
+def set_conv(pr, case):
+    from thermosteam.base import SparseVector, SparseArray
+    f = feed_array(case)
+    m = SparseArray(f) if case['phases'] else SparseVector(f)
+    c = pr._conversion(m)
+    return [frac(x) for x in np.asarray(c.to_array(), float).reshape(-1)]
+
 def degenerate(store, rop):
     """a (+/-) b with X_a (+/-) X_b == 0: the result (0/0 stoichiometry) depends on float rounding of the operands'
     stoichiometry, which the exact model does not represent; such operations are left out on both sides."""
@@ -199,17 +242,20 @@ def run_impl(case):
     objs = build(case)
     out = {'init': [snap(r) for r in objs]}
     if case['kind'] == 'set':
-        tmo = e['tmo']
-        pr = tmo.ParallelReaction(objs)
-        items = [pr[k] for k in range(len(objs))]
-        for name, i, x in case['ops']:
-            if name == 'item_set':
-                items[i].X = x
-            else:
-                pr.X[i] = x
-        out['set_X'] = [fr_json(frac(x)) for x in pr.X]
-        out['item_X'] = [fr_json(frac(it.X)) for it in pr]        # fresh items
-        out['held_item_X'] = [fr_json(frac(it.X)) for it in items]  # items obtained before the writes
+        pr, handles, hdesc = set_handles(e['tmo'], objs)
+        oks = []
+        for op in case['ops']:
+            try:
+                set_apply(pr, handles, op)
+                oks.append(True)
+            except Exception as ex:
+                oks.append(False)
+                out.setdefault('errors', []).append(type(ex).__name__)
+        out['oks'] = oks
+        out['handles'] = hdesc
+        out['reads'] = [[fr_json(frac(x)) for x in np.atleast_1d(h.X)] for h in handles]
+        out['fresh_items'] = [fr_json(frac(it.X)) for it in pr]
+        out['acts'] = [fr_json(x) for x in set_conv(pr, case)]
         return out
     store = list(objs)
     oks, resolved, all_new = [], [], True
@@ -265,14 +311,29 @@ def coq_case(case, out):
     mws = qlist(e['MW'] * nph)
     if case['kind'] == 'set':
         init = out['init']
-        rs = ('(mkrset ' + clist([qlist(s['st']) for s in init]) + ' ' + clist([s['ridx'] for s in init], cnat)
-              + ' ' + qlist([F(s['X']) for s in init]) + ')')
-        t = rs
-        for name, i, x in case['ops']:
-            t = f'(item_set_X {t} {cnat(i)} {q(x)})'   # both writes land in the one shared array
-        exp = qlist([F(x) for x in out['set_X']])
-        same = out['set_X'] == out['item_X'] == out['held_item_X']
-        return f'(vapproxb (Xs {t}) {exp} && {cbool(same)})'
+        xs = qlist([F(s['X']) for s in init])
+        def vec_of(v, n):
+            return qlist([v] if not isinstance(v, list) else v)
+        sops = []
+        for op in case['ops']:
+            nm = op[0]
+            if nm == 'item_set': sops.append(f'(SItemSet {cnat(op[1])} {q(op[2])})')
+            elif nm == 'set_elem': sops.append(f'(SSetElem {cnat(op[1])} {q(op[2])})')
+            elif nm == 'set_all': sops.append(f'(SSetAll {vec_of(op[1], 0)})')
+            elif nm == 'sub_all': sops.append(f'(SSubAll {cnat(op[1])} {cnat(op[2])} {vec_of(op[3], 0)})')
+            else: sops.append(f'(SSubElem {cnat(op[1])} {cnat(op[2])} {cnat(op[3])} {q(op[4])})')
+        hs = []
+        for h in out['handles']:
+            hs.append('HSet' if h[0] == 'set' else (f'(HItem {cnat(h[1])})' if h[0] == 'item' else f'(HSub {cnat(h[1])} {cnat(h[2])})'))
+        reads = clist([qlist([F(x) for x in r]) for r in out['reads']])
+        # the set must act with the conversions every handle shows: compare conversion on the feed as well
+        n = len(init)
+        fresh = out['fresh_items'] == out['reads'][0]
+        mws = qlist(e['MW'] * nph)
+        rs = clist([crxn(s) for s in init])
+        acts = qlist([F(x) for x in out['acts']])
+        return (f'(srun_eqb {xs} {clist(sops)} {clist(hs)} {reads} {clist(out["oks"], cbool)} && {cbool(fresh)} && '
+                f'set_acts_eqb {rs} (fst (srun {xs} {clist(sops)})) {qlist(case["feed"])} {acts})')
     store = clist([crxn(s) for s in out['init']])
     ops = clist([cop(o) for o in out['ops']])
     expect = clist([crxn(s) for s in out['final']])
@@ -289,7 +350,7 @@ def coq_show(case, out):
 
 def nontrivial(case, out):
     if case['kind'] == 'set':
-        return out.get('set_X') != [s['X'] for s in out['init']]
+        return any(out.get('oks', [])) and out.get('reads', [[]])[0] != [s['X'] for s in out['init']]
     return any(out.get('oks', [])) and out.get('final') != out.get('init')
 
 def classify(case, out):
@@ -317,15 +378,29 @@ def oracle(case):
     e = env(); tmo = e['tmo']
     objs = build(case)
     if case['kind'] == 'set':
-        pr = tmo.ParallelReaction(objs)
-        items = [pr[k] for k in range(len(objs))]
-        for name, i, x in case['ops']:
-            if name == 'item_set':
-                items[i].X = x
-                if float(pr.X[i]) != x: return f'item.X = {x} not visible in the set'
-            else:
-                pr.X[i] = x
-                if float(items[i].X) != x: return f'set.X[{i}] = {x} not visible in the item'
+        pr, handles, hdesc = set_handles(tmo, objs)
+        n = len(objs)
+        for op in case['ops']:
+            try:
+                set_apply(pr, handles, op)
+            except Exception:
+                continue
+            cur = [float(x) for x in pr.X]
+            for h, d in zip(handles, hdesc):
+                got = [float(x) for x in np.atleast_1d(h.X)]
+                want = cur if d[0] == 'set' else ([cur[d[1]]] if d[0] == 'item' else cur[d[1]:d[1] + d[2]])
+                if got != want:
+                    return f'set: after {op} the handle {d} obtained earlier reads {got}, the set holds {want}'
+            fresh = [float(it.X) for it in pr]
+            if fresh != cur: return f'set: fresh items read {fresh}, the set holds {cur}'
+        # the set reacts with the conversions it shows
+        want = [F(0)] * len(case['feed'])
+        for r, x in zip(objs, pr.X):
+            c = conv(r, case)
+            want = [w + (ci / frac(r.X) * frac(x) if r.X else F(0)) for w, ci in zip(want, c)]
+        if all(r.X for r in objs):
+            got = set_conv(pr, case)
+            if not close(got, want): return f'set: the set does not react with the conversions it reports'
         return None
     store = list(objs)
     for op in case['ops']:
